@@ -111,6 +111,9 @@ Fixpoint assoc {A} (k : string) (l : list (string * A)) : option A :=
   | (k', v) :: r => if String.eqb k k' then Some v else assoc k r
   end.
 
+(* the std::map<string, enumerator>::find of parse_multiple (its own name so that proofs can keep it folded) *)
+Definition lookup_name (s : string) (tbl : list (string * string)) : option string := assoc s tbl.
+
 Fixpoint mem (k : string) (l : list string) : bool :=
   match l with [] => false | x :: r => String.eqb k x || mem k r end.
 
@@ -164,31 +167,43 @@ Definition arg_ok (ds : list odecl) (na : string * aval) : bool :=
 
 Definition args_ok (ds : list odecl) (a : args) : bool := forallb (arg_ok ds) a.
 
-Definition opt_value (T : tables) (a : args) (o : string) (t : oty) : ev :=
+(* everything below sees the command line only through this view *)
+Definition view := list string -> option aval.
+
+(* what the parsed command line says about one option (all spellings `names`):
+   the last value given, else the default; None = the given text is not of that type
+   (cxxopts throws incorrect_argument_type / as<T>() throws) *)
+Definition flag (g : view) (names : list string) : bool :=
+  match g names with Some _ => true | None => false end.
+
+Definition str_of (g : view) (names : list string) (dflt : string) : option string :=
+  match g names with None => Some dflt | Some (AVal s _ _) => Some s | Some AFlag => None end.
+
+Definition int_of (g : view) (names : list string) (dflt : Z) : option Z :=
+  match g names with None => Some dflt | Some (AVal _ (Some z) _) => Some z | Some _ => None end.
+
+Definition dbl_of (g : view) (names : list string) (dflt : Q) : option Q :=
+  match g names with None => Some dflt | Some (AVal _ _ (Some q)) => Some q | Some _ => None end.
+
+Definition opt_value (T : tables) (g : view) (o : string) (t : oty) : ev :=
   match find_decl o (t_options T) with
   | None => EExc                              (* cxxopts: option not present -> throws *)
   | Some d =>
-    match o_default d, t, given (o_names d) a with
-    | DStr _, TStr, Some (AVal s _ _) => EV (VStr s)
-    | DStr s, TStr, None => EV (VStr s)
-    | DInt _, TInt, Some (AVal _ (Some z) _) => EV (VInt z)
-    | DInt z, TInt, None => EV (VInt z)
-    | DDbl _, TDbl, Some (AVal _ _ (Some q)) => EV (VDbl q)
-    | DDbl q, TDbl, None => match num_default (t_numfmt T) q with
-                            | Some q' => EV (VDbl q')
-                            | None => EStuck
-                            end
-    | _, _, _ => EExc                         (* as<T>() with the wrong T: std::bad_cast *)
+    match o_default d, t with
+    | DStr s, TStr => match str_of g (o_names d) s with Some x => EV (VStr x) | None => EExc end
+    | DInt z, TInt => match int_of g (o_names d) z with Some x => EV (VInt x) | None => EExc end
+    | DDbl q, TDbl => match num_default (t_numfmt T) q with
+                      | Some q' => match dbl_of g (o_names d) q' with Some x => EV (VDbl x) | None => EExc end
+                      | None => EStuck
+                      end
+    | _, _ => EExc                            (* as<T>() with the wrong T: std::bad_cast *)
     end
   end.
 
-Definition opt_count (T : tables) (a : args) (o : string) : ev :=
+Definition opt_count (T : tables) (g : view) (o : string) : ev :=
   match find_decl o (t_options T) with
   | None => EV (VBool false)
-  | Some d => match given (o_names d) a with
-              | Some _ => EV (VBool true)
-              | None => EV (VBool false)
-              end
+  | Some d => EV (VBool (flag g (o_names d)))
   end.
 
 Definition is_digit (c : ascii) : bool :=
@@ -211,22 +226,22 @@ Definition lit_value (s : string) : ev :=
        | _ => if all_digits s then EV (VInt (digits_val s 0%Z)) else EStuck
        end.
 
-Fixpoint eval (T : tables) (a : args) (e : wexpr) : ev :=
+Fixpoint eval (T : tables) (g : view) (e : wexpr) : ev :=
   match e with
-  | WAs o t => opt_value T a o t
-  | WCount o => opt_count T a o
-  | WNot x => match eval T a x with EV (VBool b) => EV (VBool (negb b)) | EV _ => EStuck | r => r end
-  | WAnd x y => match eval T a x, eval T a y with
+  | WAs o t => opt_value T g o t
+  | WCount o => opt_count T g o
+  | WNot x => match eval T g x with EV (VBool b) => EV (VBool (negb b)) | EV _ => EStuck | r => r end
+  | WAnd x y => match eval T g x, eval T g y with
                 | EV (VBool b), EV (VBool c) => EV (VBool (b && c))
                 | EExc, _ => EExc
                 | EV (VBool _), EExc => EExc
                 | _, _ => EStuck
                 end
   | WLit s => lit_value s
-  | WName m x => match eval T a x with
+  | WName m x => match eval T g x with
                  | EV (VStr s) => match assoc m (t_maps T) with
                                   | None => EStuck
-                                  | Some tbl => match assoc s tbl with
+                                  | Some tbl => match lookup_name s tbl with
                                                 | Some id => EV (VEnum id)
                                                 | None => EExc           (* parse_multiple throws *)
                                                 end
@@ -234,7 +249,7 @@ Fixpoint eval (T : tables) (a : args) (e : wexpr) : ev :=
                  | EV _ => EStuck
                  | r => r
                  end
-  | WIndex0 x => match eval T a x with
+  | WIndex0 x => match eval T g x with
                  | EV (VStr EmptyString) => EV (VChar None)              (* s[0] of "" is NUL *)
                  | EV (VStr (String c _)) => EV (VChar (Some c))
                  | EV _ => EStuck
@@ -261,17 +276,17 @@ Definition cmpQ (c : cmp) (x k : Q) : bool :=
    an exception inside a test leaves run() through main()'s handler: modelled as firing *)
 Inductive fire := Fires | Passes | Throws | FStuck.
 
-Definition test_fires (T : tables) (a : args) (t : xtest) : fire :=
+Definition test_fires (T : tables) (g : view) (t : xtest) : fire :=
   match t with
-  | XIf e => match eval T a e with
+  | XIf e => match eval T g e with
              | EV (VBool true) => Fires | EV (VBool false) => Passes
              | EExc => Throws | _ => FStuck end
-  | XUnknown m e => match eval T a (WName m e) with
+  | XUnknown m e => match eval T g (WName m e) with
                     | EV _ => Passes | EExc => Fires | EStuck => FStuck end
-  | XCmpZ e c k => match eval T a e with
+  | XCmpZ e c k => match eval T g e with
                    | EV (VInt z) => if cmpZ c z k then Fires else Passes
                    | EExc => Throws | _ => FStuck end
-  | XCmpQ e c k => match eval T a e with
+  | XCmpQ e c k => match eval T g e with
                    | EV (VDbl q) => if cmpQ c q k then Fires else Passes
                    | EExc => Throws | _ => FStuck end
   | XOther _ => FStuck
@@ -279,44 +294,50 @@ Definition test_fires (T : tables) (a : args) (t : xtest) : fire :=
 
 Definition catch_code (T : tables) : Z := match t_catch T with c :: _ => c | [] => 0%Z end.
 
-Fixpoint first_exit (T : tables) (a : args) (xs : list xexit) : option outcome :=
+Fixpoint first_exit (T : tables) (g : view) (xs : list xexit) : option outcome :=
   match xs with
   | [] => None
-  | x :: r => match test_fires T a (x_test x) with
+  | x :: r => match test_fires T g (x_test x) with
               | Fires => Some (Exit (x_code x))
               | Throws => Some (Exit (catch_code T))
               | FStuck => Some Stuck
-              | Passes => first_exit T a r
+              | Passes => first_exit T g r
               end
   end.
 
-Fixpoint eval_all (T : tables) (a : args) (l : list (string * wexpr))
+Fixpoint eval_all (T : tables) (g : view) (l : list (string * wexpr))
   : option (option (list (string * value))) :=     (* None = stuck, Some None = exception *)
   match l with
   | [] => Some (Some [])
   | (k, e) :: r =>
-    match eval T a e with
+    match eval T g e with
     | EStuck => None
     | EExc => Some None
-    | EV v => match eval_all T a r with
+    | EV v => match eval_all T g r with
               | Some (Some vs) => Some (Some ((k, v) :: vs))
               | o => o
               end
     end
   end.
 
-(* run() up to the library call, wrapped in main()'s try/catch *)
-Definition cli_decide (T : tables) (a : args) : outcome :=
-  if negb (args_ok (t_options T) a) then Exit (catch_code T)
-  else match first_exit T a (t_exits T) with
+(* run() up to the library call, wrapped in main()'s try/catch.
+   `ok` = options.parse() did not throw; `g names` = the last value given under any of the spellings *)
+Definition decide_view (T : tables) (ok : bool) (g : view) : outcome :=
+  if negb ok then Exit (catch_code T)
+  else match first_exit T g (t_exits T) with
        | Some o => o
        | None =>
-         match eval_all T a (t_wiring T), eval_all T a (t_io T) with
+         match eval_all T g (t_wiring T), eval_all T g (t_io T) with
          | Some (Some ps), Some (Some io) => Run ps io
          | None, _ | _, None => Stuck
          | _, _ => Exit (catch_code T)
          end
        end.
+
+Definition view_of (a : args) : view := fun names => given names a.
+
+Definition cli_decide (T : tables) (a : args) : outcome :=
+  decide_view T (args_ok (t_options T) a) (view_of a).
 
 (* ---------------------------------------------------------------------- *)
 (*  Part B.  files                                                        *)
